@@ -105,7 +105,22 @@ class Lower:
             return '(RAsPtr %s)' % self.r(e[3])
         self.bad('run-time expression not in the subset', e)
 
+    def reuse_dead_local(self, stmts):
+        """T const x = E;  REST      with x a name the frame does not have, E mentioning a frame local V that REST never mentions,
+           and REST never assigning x      is      V = E;  REST[x := V]      (V is dead after E: its storage can hold x)"""
+        stmts = list(stmts)
+        for i, st in enumerate(stmts):
+            if st[0] == 'decl' and len(st[2]) == 1 and st[2][0][0] not in LOCALS and st[2][0][1] is not None and (norm(st[1]).endswith('const') or ('*' not in st[1] and norm(st[1]).startswith('const'))):
+                x, init = st[2][0]           # declared const: the compiler guarantees REST does not assign it
+                rest = stmts[i + 1:]
+                for v in ('dispatch', 'vtbl', 'slot', 'stride'):
+                    if mc._mentions(init, v) and not mc._mentions(rest, v) and v in self.locals:
+                        stmts = stmts[:i] + [('expr', ('assign', '=', ('id', v), init))] + mc._subst_ids(rest, {x: ('id', v)})
+                        break
+        return stmts
+
     def seq(self, stmts):
+        stmts = self.reuse_dead_local(stmts)
         out = [self.s(t) for t in stmts]
         out = [t for t in out if t != 'WSkip']
         if not out:
